@@ -106,7 +106,7 @@ reg('C19',
     deadline={'quick': 400, 'thorough': 2000},
     level=MC,
     technique='bounded-exhaustive enumeration of all expression bodies up to length L x index x capacity on the real expression API (ASan), compared with a reference list grammar',
-    rule={'quick': 'every expression body of length <= 6 over {1 2 0 - . : , ! @ blank A E +} between parentheses, queried at every index 0..9 (0..4 for length 6) through the three numeric-list entry functions and through the channel-list function with every capacity 0..4 (exact-size heap value arrays) and with capacity 0 announced with NULL arrays, plus generated lists of 1..8 entries x 1..5 dimensions with every range placement and lists of long numbers with signed exponents and blanks at the exponent mark; non-trivial = body that is a well-formed numeric or channel list',
+    rule={'quick': 'every expression body of length <= 6 over {1 2 0 - . : , ! @ blank A E +} between parentheses, queried at every index 0..9 (0..4 for length 6) through the three numeric-list entry functions and through the channel-list function with every capacity 0..4 (exact-size heap value arrays) and with capacity 0 announced with NULL arrays, plus generated lists of 1..8 entries x 1..5 dimensions with every range placement and lists of long numbers with signed exponents and blanks at the exponent mark and the int32 limits; default and no-info builds; non-trivial = body that is a well-formed numeric or channel list',
           'thorough': 'as quick with bodies of length <= 7'},
     assumptions=['lazy validation is accepted: entry i may be reported OK when the body starts with i+1 well-formed comma-separated entries, whatever follows',
                  'for a malformed numeric list both NO_MORE and ERROR are accepted where OK is not allowed; for a malformed channel list only ERROR with -170',
@@ -152,7 +152,7 @@ reg('C05',
     deadline={'quick': 400, 'thorough': 2500},
     level=MC,
     technique='bounded-exhaustive enumeration of (handler signature, parameter list) pairs executed through SCPI_Input on a fresh context (ASan), compared with a model of the statement driven by the reference tokenizer',
-    rule={'quick': 'signatures: every sequence of 0..2 typed reads (10 readers x mandatory/optional) x handler result OK/ERR x stop/continue after a failed read (1684 signatures); lists: every sequence of 0..3 items over 14 well-formed data items of every type (numbers with/without known/unknown suffix, nondecimal, character data, strings and blocks and expressions containing commas) and 4 malformed fragments (empty item, open string, two numbers, @) x 4 white-space styles around the commas x 5 deliveries (NL, behind a failing unit, flush, SCPI_Parse, behind another message in one call + flush); for signatures of <= 1 read additionally a handler that reports an error of its own through SCPI_ErrorPush / SCPI_ErrorPushEx; lists of 1..1000 items; the same units with the error queue already full; #H/#Q/#B items of two equal digits for every digit 0-9A-Fa-f and both cases of the radix letter, alone and as second list item (a digit outside the radix must make the unit malformed); every unit suffix of a golden copy of the unit table (mc/golden_units.h) delivered as known with its unit and multiplier, alone and in a list, and the same name plus one letter refused with -131; non-trivial = well-formed unit (the model then predicts the complete trace of reads, values and errors)',
+    rule={'quick': 'signatures: every sequence of 0..2 typed reads (10 readers x mandatory/optional) x handler result OK/ERR x stop/continue after a failed read (1684 signatures); lists: every sequence of 0..3 items over 14 well-formed data items of every type (numbers with/without known/unknown suffix, nondecimal, character data, strings and blocks and expressions containing commas) and 4 malformed fragments (empty item, open string, two numbers, @) x 4 white-space styles around the commas x 5 deliveries (NL, behind a failing unit, flush, SCPI_Parse, behind another message in one call + flush); for signatures of <= 1 read additionally a handler that reports an error of its own through SCPI_ErrorPush / SCPI_ErrorPushEx; lists of 1..1000 items; the same units with the error queue already full, and with exactly one place free (the error of the unit itself must then be in the queue); #H/#Q/#B items of two equal digits for every digit 0-9A-Fa-f and both cases of the radix letter, alone and as second list item (a digit outside the radix must make the unit malformed); every unit suffix of a golden copy of the unit table (mc/golden_units.h) delivered as known with its unit and multiplier, alone and in a list, and the same name plus one letter refused with -131; non-trivial = well-formed unit (the model then predicts the complete trace of reads, values and errors)',
           'thorough': 'signatures of 0..3 reads (lists of 0..2 items for 3 reads)'},
     assumptions=['a suffixed number handed to a non-numeric reader may raise -104 or -138 (the statement is ambiguous there)',
                  'integer value of a non-integer decimal literal is not compared (C04 owns conversions)',
@@ -168,7 +168,7 @@ reg('C06',
     deadline={'quick': 400, 'thorough': 3000},
     level=MC,
     technique='bounded-exhaustive enumeration of messages x predecessor histories executed through SCPI_Input (ASan), byte-exact comparison of write()/flush() with a framing model',
-    rule={'quick': 'every message of 1..5 units over 17 unit kinds (commands OK/ERR/with unread parameter; queries emitting 0/1/2/4 results of 16 rotating result types - integers in 4 bases, float, double, bool, text, mnemonic, blocks whole and streamed, ASCII and binary arrays incl. empty ones, error - then OK / ERR / ERR with own error / parameter left unread; undefined header; invalid unit; empty unit), each on a fresh context and after each of 13 predecessor messages (one leaves the error queue full); plus units with 254..1025 result items and blocks of 255..131073 bytes (one-shot and streamed) as FIRST item of a unit followed by a second item (total length and hash of the output); the error result carries a text with an apostrophe and double quotes; every message of <= 3 units over 23 units handled by the handlers the library ships (*IDN? *TST? *OPC? *ESE? *ESR? *SRE? *STB? SYST:ERR? SYST:ERR:COUN? SYST:VERS? STAT:QUES? STAT:QUES:ENAB? STAT:OPER:COND? *RST *CLS *WAI *OPC *ESE STAT:QUES:ENAB STAT:PRES STUB STUB?) on a context with queued errors and event bits, compared with the same units sent one per message (differential: non-empty responses joined by ; plus one terminator); default (CR LF) and LF line-ending builds, the terminator taken from SCPI_LINE_ENDING; non-trivial = message in which at least one unit responds',
+    rule={'quick': 'every message of 1..5 units over 17 unit kinds (commands OK/ERR/with unread parameter; queries emitting 0/1/2/4 results of 16 rotating result types - integers in 4 bases, float, double, bool, text, mnemonic, blocks whole and streamed, ASCII and binary arrays incl. empty ones, error - then OK / ERR / ERR with own error / parameter left unread; undefined header; invalid unit; empty unit), each on a fresh context and after each of 13 predecessor messages (one leaves the error queue full); plus units with 254..1025 result items and blocks of 255..131073 bytes (one-shot and streamed) as FIRST item of a unit followed by a second item (total length and hash of the output); the error result carries a text with an apostrophe and double quotes, one block result ends in the last byte of the line terminator; every message of <= 3 units over 23 units handled by the handlers the library ships (*IDN? *TST? *OPC? *ESE? *ESR? *SRE? *STB? SYST:ERR? SYST:ERR:COUN? SYST:VERS? STAT:QUES? STAT:QUES:ENAB? STAT:OPER:COND? *RST *CLS *WAI *OPC *ESE STAT:QUES:ENAB STAT:PRES STUB STUB?) on a context with queued errors and event bits, compared with the same units sent one per message (differential: non-empty responses joined by ; plus one terminator); default (CR LF) and LF line-ending builds, the terminator taken from SCPI_LINE_ENDING; non-trivial = message in which at least one unit responds',
           'thorough': 'messages of 1..6 units (6-unit messages after 4 histories)'},
     assumptions=['a unit responds iff it is a query whose handler emitted at least one result or completed without error (an empty successful query is an empty response unit)',
                  'non-query handlers emit nothing (a command that writes results is handler misuse)'],
@@ -183,7 +183,7 @@ reg('C09',
     deadline={'quick': 400, 'thorough': 2000},
     level=MC,
     technique='bounded-exhaustive differential enumeration: every ordered pair of messages executed on the real parser (ASan), trace of B after A compared with B on a fresh context',
-    rule={'quick': 'message set M = 49 single units (three address table entries without callback) + all 2401 ordered unit pairs (compound paths, common commands, every parameter kind incl. malformed lists and dangling comma, queries that succeed / fail midway / leave a block unfinished / write block data without header, invalid and incomplete units), each NL-terminated; ordered pairs (A, B): all |M|^2 = 4.7 M, plus A and an unterminated single-unit B in one call executed by a flush; compared: handler invocations with effective header and decoded parameters, output bytes, flushes, error callbacks, SCPI_Input result; histories with an input-buffer overrun; a long message A of 255..70000 bytes of valid units in a 70016-byte buffer (whole and in two chunks) before each single-unit B; static-heap build: single-unit pairs and every history of <= 5 messages over {two undefined headers, SYST:ERR?, *CLS, two undefined headers in one message} on a 16-byte info heap, the queue read back and *CLS, then B whose queued error TEXTS are compared with B on a fresh context; non-trivial = pair whose A executed a handler or raised an error',
+    rule={'quick': 'message set M = 49 single units (three address table entries without callback) + all 2401 ordered unit pairs (compound paths, common commands, every parameter kind incl. malformed lists and dangling comma, queries that succeed / fail midway / leave a block unfinished / write block data without header, invalid and incomplete units), each NL-terminated; ordered pairs (A, B): all |M|^2 = 4.7 M, plus A and an unterminated single-unit B in one call executed by a flush; compared: handler invocations with effective header and decoded parameters, output bytes, flushes, error callbacks, SCPI_Input result; histories with an input-buffer overrun; single units terminated by a bare CR and by CR LF before each single-unit B; a long message A of 255..70000 bytes of valid units in a 70016-byte buffer (whole and in two chunks) before each single-unit B; static-heap build: single-unit pairs and every history of <= 5 messages over {two undefined headers, SYST:ERR?, *CLS, two undefined headers in one message} on a 16-byte info heap, the queue read back and *CLS, then B whose queued error TEXTS are compared with B on a fresh context; non-trivial = pair whose A executed a handler or raised an error',
           'thorough': 'additionally every two-message history (A1, A2 single units) x every B in M (2.9 M), also in the no-info build'},
     assumptions=['B never queries status registers or the error queue (excepted by the statement); error queue capacity 64 so overflow cannot alias the comparison',
                  'A is always a terminated message (the harness asserts that nothing stays pending after A)'],
@@ -198,7 +198,7 @@ reg('C08',
     deadline={'quick': 400, 'thorough': 2500},
     level=MC,
     technique='exhaustive enumeration of input segmentations (schedules) of bounded streams on the real SCPI_Input (ASan, tail-poisoned buffer), differential against the byte-at-a-time schedule',
-    rule={'quick': 'streams: every concatenation of 1..3 messages of a 16-message alphabet (block with embedded NL and ; as first and as second parameter, block with NUL bytes, quoted string with embedded ; and with embedded NL, empty units, CR LF, bare CR, undefined header, missing parameter, dangling comma, trailing blanks, exponent number, common+compound), optionally followed by an unterminated unit (5 tails); schedules: EVERY partition for streams <= 14 bytes, else every partition with <= 2 cut points + every uniform chunk size + all-at-once, in a 256-byte and an exactly-fitting input buffer, against one byte per call; two streams of 506 / 762 bytes (the alphabet in rotation) in input buffers of 1024 and 66000 bytes: all at once, every single cut, every uniform chunk size; plus the zero-length-call clause on every prefix; static-heap build: the streams of <= 2 messages and every stream of <= 5 messages over {10-character undefined header, 8-character undefined header, SYST:ERR?, 4-character undefined header} with a 24-byte info heap (texts stored, released, wrapping); non-trivial = every schedule run (each is compared with the reference schedule)',
+    rule={'quick': 'streams: every concatenation of 1..3 messages of a 16-message alphabet (block with embedded NL and ; as first and as second parameter, block with NUL bytes, quoted string with embedded ; and with embedded NL, empty units, CR LF, bare CR, undefined header, missing parameter, dangling comma, trailing blanks, exponent number, common+compound), optionally followed by an unterminated unit (5 tails); schedules: EVERY partition for streams <= 14 bytes, else every partition with <= 2 cut points + every uniform chunk size + all-at-once, in a 256-byte and an exactly-fitting input buffer, against one byte per call (the alphabet includes an undefined header terminated by CR LF); two streams of 506 / 762 bytes (the alphabet in rotation) in input buffers of 1024 and 66000 bytes: all at once, every single cut, every uniform chunk size; plus the zero-length-call clause on every prefix; static-heap build: the streams of <= 2 messages and every stream of <= 5 messages over {10-character undefined header, 8-character undefined header, SYST:ERR?, 4-character undefined header} with a 24-byte info heap (texts stored, released, wrapping); non-trivial = every schedule run (each is compared with the reference schedule)',
           'thorough': 'streams of 1..4 messages in both builds, heap streams of <= 6 messages'},
     assumptions=['return values of the individual SCPI_Input calls are not compared (they are per call, not per message)',
                  'known finding: a line terminator inside a quoted string is acted on when the chunk boundary falls inside the string (known_findings.txt)'],
